@@ -162,6 +162,11 @@ def _mi_coords(ds):
     return out
 
 
+def _kinds(values):
+    """'i' for integers, 's' for strings, '?' otherwise - per element"""
+    return "".join("i" if isinstance(v, (int, np.integer)) and not isinstance(v, bool) else "s" if isinstance(v, str) else "?" for v in list(values))
+
+
 def check_dataset(ds, spec, names, inputs, env, li=True, sel=True, stats=None):  # noqa: C901, PLR0912, PLR0915
     """list of (signature-part dict, text) for one dataset that was asked to hold `names`"""
     out = []
@@ -206,8 +211,8 @@ def check_dataset(ds, spec, names, inputs, env, li=True, sel=True, stats=None): 
         dims, idx = mis[holder]
         if dims != (axis,):
             out.append(({"kind": "coord-wrong-axis", "level": True}, f"multi-index {holder} holding {x} is on {dims}, input is mapped along ({axis},)"))
-        elif terms.T(list(idx.get_level_values(x))) != want:
-            out.append(({"kind": "coord-values", "level": True}, f"level {x} of {holder} = {list(idx.get_level_values(x))}, input = {want}"))
+        elif terms.T(list(idx.get_level_values(x))) != want or _kinds(idx.get_level_values(x)) != _kinds(inputs[x]):
+            out.append(({"kind": "coord-values", "level": True}, f"level {x} of {holder} = {list(idx.get_level_values(x))}, input = {want} ({_kinds(inputs[x])})"))
     for axis, grp in sorted(zips):
         ok = any(dims == (axis,) and set(grp) <= set(idx.names) for dims, idx in mis.values())
         stats["zip-group-checked"] += 1
@@ -289,6 +294,11 @@ def run_group(spec, storage, combos, variant=None):  # noqa: C901, PLR0912
     (case, [(sig, text)], info) where info = {'coords': int, 'zips': int, 'outcome': str|None, 'skipped_subdict': bool}"""
     pred = predicates(spec)
     inputs = gen_map.make_inputs(spec)
+    if variant == "mixed-kinds":
+        # zipped roots of DIFFERENT kinds of values: the last zipped 1-D root holds ints, the others strings - each level of the
+        # multi-index carries its own input's values (an int stays an int)
+        r = sorted(k for k, a in spec["roots"].items() if len(a) == 1)[-1]
+        inputs[r] = [10 + k for k in range(len(inputs[r]))]
     env, _ = gen_map.ref_map(spec, inputs)
     every = all_outputs(spec)
     folder = boot.mkscratch("c19-")
@@ -542,6 +552,8 @@ def run_unit(unit):
                 groups.append(("file_array", [(True, None)], "root-default"))
             if len(spec["roots"]) >= 2:
                 groups.append(("file_array", [(True, None)], "scoped"))
+            if sum(1 for a in spec["roots"].values() if len(a) == 1) >= 2:
+                groups.append(("file_array", [(True, None)], "mixed-kinds"))
             if any(len(a) == 1 for a in spec["roots"].values()) and len(spec["funcs"][0]["outs"]) == 1:
                 groups.append(("file_array", [(True, None)], "rerun-same-folder"))
         for storage, combos, variant in groups:
